@@ -120,7 +120,7 @@ fn leaf_name(r1: usize, c1: usize, r2: usize, c2: usize) -> String {
 }
 
 pub fn run(run: &Run) {
-    run.rule("every shape pair (r1,c1,r2,c2) × {+,-,*,/} × Matrix∘Matrix / Matrix∘Vector / Vector∘Matrix × 4 ownership forms; left entries distinct primes, right entries distinct other primes + 0.5; oracle = NumPy rule, bitwise; non-trivial = shapes differ (stretch or rejection expected)");
+    run.rule("every shape pair (r1,c1,r2,c2) × {+,-,*,/} × Matrix∘Matrix / Matrix∘Vector / Vector∘Matrix × 4 ownership forms; left entries distinct primes, right entries distinct other primes + 0.5; also with cancelling, constant and all-zero operands on every shape pair with dimensions 1..=4; oracle = NumPy rule, bitwise; non-trivial = shapes differ (stretch or rejection expected)");
     let d = run.tier.pick(6usize, 20usize);
     run.bound("shape pairs", format!("(r1,c1,r2,c2) in 1..={}^4{}", d, if run.thorough() { " plus {1,2,7,8,9,15,16,17,31,33,40}^4" } else { " plus {1,2,8,9,16,17,40}^4" }) + "; 9 shapes with more than 1024 elements (not a multiple of 8) × 6 equal / stretched partners");
     let mut pairs = Vec::new();
@@ -193,6 +193,62 @@ pub fn run(run: &Run) {
             }
         }
     }
+    // value patterns (the shape rule must not depend on the data): operands whose entries cancel to an exact
+    // zero sum, constant operands, all-zero operands - every shape pair with dimensions 1..=4, compatible or not
+    {
+        let fills: Vec<(&str, fn(usize) -> Vec<f64>)> = vec![
+            ("cancelling", |n| (0..n).map(|i| if n == 1 { 0.0 } else { i as f64 - (n as f64 - 1.0) / 2.0 }).collect()),
+            ("cancelling-3", |n| (0..n).map(|i| [1.5, -0.5, -1.0][i % 3] * if i >= n - n % 3 { 0.0 } else { 1.0 }).collect()),
+            ("constant", |n| vec![2.5; n]),
+            ("ones", |n| vec![1.0; n]),
+            ("zeros", |n| vec![0.0; n]),
+        ];
+        let mut vp = Vec::new();
+        for r1 in 1..=4usize {
+            for c1 in 1..=4usize {
+                for r2 in 1..=4usize {
+                    for c2 in 1..=4usize {
+                        vp.push((r1, c1, r2, c2));
+                    }
+                }
+            }
+        }
+        vp.extend([(4, 6, 2, 3), (4, 6, 4, 3), (3, 6, 4, 6), (4, 6, 1, 3), (6, 4, 3, 1), (33, 33, 1, 33), (33, 33, 33, 1)]);
+        vp.par_iter().for_each(|&(r1, c1, r2, c2)| {
+            for (fname, fill) in &fills {
+                for side in 0..2 {
+                    let (lv, rv) = if side == 0 { (left(r1 * c1), fill(r2 * c2)) } else { (fill(r1 * c1), right(r2 * c2)) };
+                    let a = Matrix::new(lv.clone(), r1 as i32, c1 as i32);
+                    let b = Matrix::new(rv.clone(), r2 as i32, c2 as i32);
+                    let leaf = leaf_name(r1, c1, r2, c2);
+                    for op in 0..4 {
+                        let want = model(op, &lv, r1, c1, &rv, r2, c2);
+                        run.case();
+                        run.tr();
+                        run.nontrivial(1);
+                        let res = guard(|| binop_forms!(op, 3, a, b));
+                        let desc = || format!("Matrix {}x{} {} Matrix {}x{} ({} {} operand)", r1, c1, OPS[op], r2, c2, fname, if side == 0 { "right" } else { "left" });
+                        judge(run, "MatMat", op, &desc, res, &want, &leaf);
+                        // the Vector forms of a single-row operand
+                        if side == 0 && r2 == 1 {
+                            let v = Vector::new(rv.clone());
+                            let res = guard(|| binop_forms!(op, 3, a, v));
+                            let desc = || format!("Matrix {}x{} {} Vector len {} ({} vector)", r1, c1, OPS[op], c2, fname);
+                            judge(run, "MatVec", op, &desc, res, &want, &leaf);
+                        }
+                        if side == 1 && r1 == 1 {
+                            let v = Vector::new(lv.clone());
+                            let res = guard(|| binop_forms!(op, 3, v, b));
+                            let desc = || format!("Vector len {} {} Matrix {}x{} ({} vector)", c1, OPS[op], r2, c2, fname);
+                            judge(run, "VecMat", op, &desc, res, &want, &leaf);
+                        }
+                    }
+                }
+            }
+            run.regime("value-patterns");
+        });
+    }
+    run.require_regime("value-patterns");
     run.bound("vector lengths", format!("1..={} against all matrix shapes", vl));
     mv.par_iter().for_each(|&(r, c, n)| {
         let mvv = left(r * c);
